@@ -2,6 +2,8 @@
 C12 (T4, third batch, round 4) — address-level access programs of further kernels, in the vocabulary of
 `Model/C12Kernels.lean` (`RStep`: destination = index into the call's OWNED arrays, sources = `Role.inp i | Role.own i`).
 
+Kernels: `majority_filter` and `locmin_max` (below).
+
 `majority_filter` (`_morph.cpp: py_majority_filter`): a GATHER kernel — REAL step program, data independent.
 roles: `inp 0` = the input image (read as `input.at(y+dy, x+dx)`, any strides), `own 0` = the (C-contiguous, zero-filled)
 output. One step per window `k` (`y = k / (cols−N)`, `x = k % (cols−N)`, the loops `y != rows−N`, `x != cols−N` as they are):
@@ -12,6 +14,7 @@ superset of the C++'s).
 Import-free (only `Mahotas.Model.*`).
 -/
 import Mahotas.Model.C12Kernels2
+import Mahotas.Model.C14
 namespace Mahotas.C12
 open Mahotas
 
@@ -42,15 +45,42 @@ def majorityRaw (n : Nat) (vA vOut : C08.View) : List RStep :=
     else (List.range ((rows - n) * (cols - n))).map (majPixel n cols vA vOut)
   | _ => []
 
+/-! ## locmin_max (`_morph.cpp` `locmin_max<T>`, as repaired: filter built from the input array): gather kernel — REAL
+
+roles: `inp 0` = array, `inp 1` = Bc (the wrapper has removed its centre); `own 0` = the zero-filled bool result
+(`PyArray_FILLWBYTE(output, 0)`), `own 1` = `filter_data_`.  Per pixel: `cur = *iter`, every neighbour through
+`ExtendNearest` (`retrieve`), `goto skip_to_next` as soon as one beats `cur`, else `*rpos = true`.  One step per pixel: it
+reads the old value of the result cell, `cur` and ALL neighbours (a superset of what the C++ reads when it exits early) and
+stores `1` or the old value back. -/
+
+/-- `vs = [old result cell, cur, neighbours…]` -/
+def locVal (isMin : Bool) : List Val → Val
+  | old :: cur :: nbs => if nbs.all (fun a => !C14.beats isMin a cur) then 1 else old
+  | _ => 0
+
+def locPixel (isMin : Bool) (vA vOut : C08.View) (nb : List (List Int)) (k : Nat) : RStep :=
+  let p := unravelI vA.shape k
+  { dst := 0, doff := iterAddr vOut k,
+    srcs := ⟨.own 0, iterAddr vOut k⟩ :: ⟨.inp 0, iterAddr vA k⟩ ::
+      nb.map (fun d => (⟨.inp 0, (nbrAddr .nearest vA (addPos p d)).getD vA.base⟩ : RLoc)),
+    op := locVal isMin }
+
+def locminmaxRaw (isMin : Bool) (vA vOut vBc : C08.View) (bc : Array Int) : List RStep :=
+  filterCopyRaw 1 vBc ++
+  (List.range (shapeSize vA.shape)).map (locPixel isMin vA vOut (C14.neighbours vBc.shape bc))
+
 inductive Kernel3 where
   | majority (n : Nat) (vA vOut : C08.View)
+  | locminmax (isMin : Bool) (vA vOut vBc : C08.View) (bc : Array Int)
 
 def Kernel3.raw : Kernel3 → List RStep
   | .majority n vA vOut => majorityRaw n vA vOut
+  | .locminmax isMin vA vOut vBc bc => locminmaxRaw isMin vA vOut vBc bc
 
 /-- number of argument arrays and of owned arrays the kernel's roles refer to -/
 def Kernel3.arity : Kernel3 → Nat × Nat
   | .majority .. => (1, 1)
+  | .locminmax .. => (2, 2)
 
 /-- kernel `k` called on the arrays of `c` -/
 def Kernel3.call (k : Kernel3) (c : Call) : KCall := ⟨c, k.raw⟩
